@@ -17,8 +17,16 @@ pub mod rs {
 pub mod tk {
     use vstd::prelude::*;
     verus! {
-    /// what task::read_depfile returns for this path (the dependencies its depfile lists; empty when there is no file)
-    pub uninterp spec fn depfile_deps(path: &std::path::Path) -> Seq<String>;
+    /// trusted file-system view of one depfile: is it missing, what are its bytes (with the NUL appended)
+    pub uninterp spec fn missing(path: &std::path::Path) -> bool;
+    pub uninterp spec fn content(path: &std::path::Path) -> Seq<u8>;
+    /// what depfile::parse makes of a buffer (None: parse error), and the flattening of its entries
+    pub uninterp spec fn parsed_of(buf: Seq<u8>) -> Option<crate::task::VxParsedDeps>;
+    pub uninterp spec fn flat_of(p: crate::task::VxParsedDeps) -> Seq<String>;
+    /// C15: "A missing depfile counts as empty"; otherwise the prerequisites of all entries of the parsed file, in order
+    pub open spec fn depfile_deps(path: &std::path::Path) -> Seq<String> {
+        if missing(path) { Seq::empty() } else { match parsed_of(content(path)) { Some(p) => flat_of(p), None => Seq::empty() } }
+    }
     }
 }
 verus! {
